@@ -37,7 +37,10 @@ def norm_db(v, typ):
     if v is None:
         return None
     if typ in ('array', 'object'):
-        return json.dumps(json.loads(v) if isinstance(v, str) else v, sort_keys=True)
+        # SQLite has no array/object type: the dumper stores JSON text (and hands the same text
+        # downstream); values are compared after json.loads, JSON null == SQL NULL
+        v = json.loads(v) if isinstance(v, str) else v
+        return None if v is None else json.dumps(v, sort_keys=True)
     if typ == 'number':
         return float(v)
     if typ == 'boolean':
